@@ -843,6 +843,26 @@ func (f *Frame) checkCallsites(ci ssa.CallInstruction) {
 				env.vars[fmt.Sprintf("arg%d", i)] = f.val(a)
 			}()
 		}
+		if cs.Set != "" {
+			senv := f.specEnv(f.curState, f.entry)
+			senv.at, senv.atIdx, senv.curParams = f.curBlock, f.curIdx, true
+			for k, v := range env.vars {
+				if strings.HasPrefix(k, "arg") {
+					senv.vars[k] = v
+				}
+			}
+			name := "$ghost." + cs.Set
+			if _, ok := g.P.Specs.Ghosts[cs.Set]; !ok {
+				panic(specErr("assignment to undeclared ghost variable $" + cs.Set))
+			}
+			if g.P.Specs.Ghosts[cs.Set] == "bool" {
+				g.heapSet(f.curState, name, SBool, senv.evalBool(cs.C.E))
+			} else {
+				g.heapSet(f.curState, name, SBV64, senv.eval(cs.C.E).Term)
+			}
+			f.callsiteHits[cs]++
+			continue
+		}
 		g.beginGoal()
 		var t string
 		skipped := false
@@ -1004,6 +1024,12 @@ func (f *Frame) exec(ins ssa.Instruction) {
 			lo = bv64(-1)
 		}
 		g.assume(f.curReach, sAnd(sApp("bvsle", lo, idx), sApp("bvslt", idx, bv64(int64(len(x.States))))))
+		// ghost: the chosen receive case counts one more value taken from its channel
+		for i, st := range x.States {
+			if st.Dir == types.RecvOnly {
+				f.countRecv(f.val(st.Chan), sEq(idx, bv64(int64(i))))
+			}
+		}
 		f.setVal(x, sv)
 	case *ssa.Store:
 		p := f.val(x.Addr)
@@ -1237,11 +1263,30 @@ func (f *Frame) unop(x *ssa.UnOp) *SVal {
 		return scalar(x.Type(), KInt, sApp("bvnot", v.Term))
 	case token.ARROW:
 		g.note("%s: channel receive abstracted (value unconstrained)", f.fn.String())
+		f.countRecv(v, "true")
 		r := g.freshVal(x.Type(), x.Name())
 		g.assume(f.curReach, g.typeInv(r))
 		return r
 	}
 	panic(unsupported("unop " + x.Op.String()))
+}
+
+// recvHeap: ghost state, the number of values the executing goroutine has taken from each channel (by
+// receive statements and chosen select cases of the code under verification; code the verifier does not see
+// into forgets it like any other state).
+const recvHeap = "$recv"
+
+var recvSort = arrSort(SBV64, SBV64)
+
+func (f *Frame) countRecv(ch *SVal, cond string) {
+	g := f.g
+	h := g.heapGet(f.curState, recvHeap, recvSort)
+	inc := sStore(h, ch.Term, sApp("bvadd", sSel(h, ch.Term), bv64(1)))
+	if cond == "true" {
+		g.heapSet(f.curState, recvHeap, recvSort, inc)
+		return
+	}
+	g.heapSet(f.curState, recvHeap, recvSort, sIte(cond, inc, h))
 }
 
 func hasRefs(t types.Type) bool {
@@ -1988,6 +2033,7 @@ func (f *Frame) checkImmutable(x *ssa.Store, p *SVal) {
 	}
 	// reference watermark: head of the innermost cut loop of the top-level function, else function entry
 	ref := g.heapGet(g.entry, allocHeap, allocSort)
+	goal := ""
 	if f == top {
 		var inner *loopInfo
 		for _, li := range f.loops {
@@ -1998,7 +2044,16 @@ func (f *Frame) checkImmutable(x *ssa.Store, p *SVal) {
 		if inner != nil {
 			ref = g.heapGet(inner.headSt, allocHeap, allocSort)
 		}
+		// the object is made by an allocation of this very function that lies inside the loop body (or, outside
+		// any loop, anywhere in the function): the allocation dominates the store, so the object written is the
+		// one made in the current iteration
+		if a := rootAlloc(x.Addr); a != nil && (inner == nil || inner.body[a.Block()]) {
+			goal = "true"
+		}
 	}
-	o := f.oblige("immutable", sApp("bvuge", objOf(p.Term), ref), x.Pos(), "write to an object of immutable type "+hit+" that is not new in this iteration")
+	if goal == "" {
+		goal = sApp("bvuge", objOf(p.Term), ref)
+	}
+	o := f.oblige("immutable", goal, x.Pos(), "write to an object of immutable type "+hit+" that is not new in this iteration")
 	o.Clause = "immutable " + hit
 }
